@@ -2037,6 +2037,45 @@ class _TernaryReg(py4hw.Logic):
         self.r.prepare(v)
 
 
+class _PresetCounter(py4hw.Logic):
+    """behavioural counter whose constructor writes its state attribute twice: a default first, the preset afterwards"""
+
+    def __init__(self, parent, name, inc, q):
+        super().__init__(parent, name)
+        self.inc = self.addIn('inc', inc)
+        self.q = self.addOut('q', q)
+        self.count = 0
+        self.count = 5
+
+    def clock(self):
+        if self.inc.get() == 1:
+            self.count = (self.count + 1) & 255
+        self.q.prepare(self.count)
+
+
+@register
+class PresetCounter(SeqKind):
+    name = 'PresetCounter'
+    tags = ('seq', 'extra', 'userblock', 'transpiled')
+    weight = 0.6
+
+    def plan(self, rng, pool):
+        return {}, [pool.pick(1)[0]], [rng.choice([8, 8, 4, 12])]
+
+    def build(self, parent, nm, ins, outs, p):
+        return _PresetCounter(parent, nm, ins[0], outs[0])
+
+    def init(self, p, iw, ow):
+        return (5, 0)
+
+    def outs(self, p, st, iv, iw, ow):
+        return [st[1]]
+
+    def nxt(self, p, st, iv, iw, ow):
+        c = (st[0] + 1) & 255 if iv[0] == 1 else st[0]
+        return (c, M(c, ow[0]))
+
+
 class _TernaryInCall(py4hw.Logic):
     """a block the transpiler refuses: a conditional expression as the argument of a call"""
 
